@@ -13,6 +13,27 @@ CHECKS = {
     "C02": ("differential monitor on the IfNode evaluation pipeline: gcc -E batch oracle + cexpr reference evaluator (must agree), probes for value and signedness, AST shrinker + mechanism classifier for known findings",
             "Every enumerated expression (operator x boundary-literal grid, all ordered operator pairs, all literal spellings, defined/identifier forms) and random trees are evaluated by the real Lexer/MacroExpander/ExpressionEvaluator and compared with gcc and the reference evaluator; #elif-after-taken cases go through finder.find.",
             "gcc and cexpr agree on all compared cases; undefined-in-C operands and gcc-diagnosed expressions are excluded; listed known findings are genuine defects kept open", "6/C02"),
+    "C04": ("external-oracle monitor: finder.find on generated header forests vs gcc -E markers, -H and -dM run in the source directory; H-platform look-up trace; differential classifiers for the known search-order / redefinition findings",
+            "The complete memoisation/search-order space (same header name in every subset of {includer dir, d1, d2}, quote/angle, both orders, every -I/-isystem order) plus random forests with guarded/once/toggle headers, computed includes and -include.",
+            "gcc 12.2 search rules; gcc runs in the source file's directory; directive lines follow the C01 rule per file", "6/C04"),
+    "C06": ("cross-front-end consistency monitor: in-process per-line attribution vs parsed output of codebasin -R summary/clustering, cbi-tree (plain, --prune, -L) and cbi-cov per platform; exact integer/Fraction recomputation; structural invariants on ParserState",
+            "Random multi-directory code bases with unused C/C++/CUDA/Fortran/asm files, symlinks, 0..4 platforms; every report parsed back and recomputed.",
+            "the in-process attribution is the reference for the reports (its own correctness is decided by C01/C04); values compared at printed precision", "6/C06"),
+    "C08": ("metamorphic + external-oracle monitor: full run vs union of single-command runs vs permuted command/platform order vs platform subsets (in-process and CLI -p in fresh processes) vs gcc per command; H-assoc Platform snapshots at translation-unit boundaries",
+            "Forests with leak detectors (macros, once-lists, include memo) for 2..6 commands over 1..4 platforms; leak sensitivity of each case is measured with gcc.",
+            "a new finder.find call is a fresh analysis (CLI sample confirms); -isystem not generated here", "6/C08"),
+    "C10": ("metamorphic + external-oracle monitor: analysis with vs without exclude patterns (all subsets of files for small cases), out-of-root headers, CLI -x vs [codebase] exclude; git check-ignore decides the matched files, gcc the absolute attribution",
+            "Forests whose headers define macros other files test; per-line attribution must be unchanged and the setmap must be the projection onto the remaining members.",
+            "git decides pattern matching; gcc per command is the absolute oracle", "6/C10"),
+    "C14": ("perturbation monitor: the real CLIs in fresh processes under PYTHONHASHSEED values, shuffled os.scandir/listdir (H-order), re-created directory entries and permuted [platform.*] tables; parsed outputs compared as mappings / sets of sets",
+            "Each generated code base is analysed 9 times; the monitor records the iteration orders actually seen and is inconclusive if the perturbations did not change them.",
+            "row/entry/group order follows enumeration order by design and is not compared; every value must be identical", "6/C14"),
+    "C15": ("metamorphic monitor: forest decorated with file/dir symlinks and redundant path segments vs its canonical twin, keyed by physical file; structural invariant one-tree-per-inode; gcc on the twin; cbi-tree on a sample",
+            "Compile commands, -I, -include and #include spellings go through aliases; unused links to members and to outside files.",
+            "physical identity = realpath/inode; compiled file links sit beside their target", "6/C15"),
+    "C18": ("trace monitor over log records: expected multiset of warnings (dangling includes counted dynamically with a gcc probe twin, unknown directives, database-level events) vs records captured from the real codebasin CLI / in-process runs, cbi.log and the printed totals",
+            "Forests with ~30% dangling include sites (quote/angle/computed, live/dead, multiply included, several TUs), unknown and benign directives, database entries for missing files, unknown compilers, unknown flags; fully resolvable controls.",
+            "gcc probe twin gives dynamic evaluation counts; unknown directives: exactly one warning per live site, at most one per dead site", "6/C18"),
     "C05": ("reference-model monitor: c_file_source / FileParser output vs the cscan phase-1..3 scanner on all texts up to length L over the lexical alphabet, all short sequences of vocabulary lines, random token texts; cscan cross-checked against gcc -E line positions",
             "Exhaustive small-scope enumeration of texts (length <= 6 quick / 7 thorough) plus line-vocabulary sequences and random files, each checked for counted-line set, directive/code class, no duplicates, range and total_sloc.",
             "cscan is the reference and agreed with gcc on every sampled and violating case; every character of a literal counts as code", "6/C05"),
